@@ -316,7 +316,7 @@ def run_check(prop, tier, seed, runs=None, nworkers=None, wall=None, extra_env=N
 
 
 def _write_replay(prop, case, rep):
-    path = os.path.join(ROOT, "replays", f"{prop}-{case.get('seed', 0)}.json")
+    path = os.path.join(os.environ.get("VERIF_REPLAY_DIR") or os.path.join(ROOT, "replays"), f"{prop}-{case.get('seed', 0)}.json")
     os.makedirs(os.path.dirname(path), exist_ok=True)
     with open(path, "w") as f:
         json.dump(
